@@ -116,7 +116,10 @@ func (x *Exec) fmtStr(spec string, verb byte, s Str) Str {
 			return s
 		}
 	case 'q':
-		return x.quoteSym(s)
+		// formatting a symbolic string with %q only happens in messages: do not fork over strconv.Quote's
+		// printable/UTF-8 case analysis (the text is marked as a placeholder and never compared)
+		x.notes = append(x.notes, "fmt-placeholder")
+		return x.strConcat(x.strConcat(Str{S: "\""}, s), Str{S: "\""})
 	}
 	x.notes = append(x.notes, "fmt-placeholder")
 	return s
